@@ -25,6 +25,7 @@ Clauses checked on the log of callbacks of each step:
   events          events come out in execution order
   sinks           phase.depends_on is the set of statements nothing depends on
   reset           a second step after reset() produces the same log as a fresh controller
+  crash           the controller itself raises on a well-formed phase (the scripted target only raises `Cut`)
 """
 import itertools
 import json
@@ -48,6 +49,10 @@ class OrderedDeps(frozenset):
 
 class Cut(Exception):
     pass
+
+
+class Runaway(Exception):
+    """the controller keeps calling back far beyond one visit per statement (reported as a `once` violation)"""
 
 
 def build_phase(inp):
@@ -79,8 +84,13 @@ class Target:
         self.raise_at = inp.get("raise_at") if step == 0 else None
         self.ctrl = ctrl
         self.log = []           # ("visit", id) | ("exec", id, method) | ("request", id, new_deps, plan snapshot)
+        self.limit = 4 * len(inp["stmts"]) + 8
+        self.nvisits = 0
 
     def evaluate_condition(self, stmt):
+        self.nvisits += 1
+        if self.nvisits > self.limit:
+            raise Runaway()
         self.log.append(("visit", stmt.id))
         if self.kinds[stmt.id] == "Nop":
             return True
@@ -174,10 +184,56 @@ def run_step(inp, phase, ctrl, step, roots):
             events.append(ev)
     except Cut:
         cut = "raised"
+    except Runaway:
+        cut = "runaway"
+    except Exception as ex:      # nothing in the script raises this: the controller itself failed
+        cut = "controller raised %s: %s" % (type(ex).__name__, ex)
     return target.log, events, cut
 
 
-def check_step(inp, log, events, cut, roots, tag):
+def prefix_model_log(inp, roots, step):
+    """what the controller of the pinned snapshot d93a44f (before the D14 repair) does on this input: a plain
+    re-statement of its algorithm -- update_plan skips every id that is already planned and puts the new ids
+    in front.  Used ONLY to keep the fingerprints narrow: a failure is attributed to D14 / to the
+    'already planned' class only if the real log is exactly the log this model predicts."""
+    deps = {s["id"]: list(s["deps"]) for s in inp["stmts"]}
+    guards = {s["id"]: (True if s.get("kind") == "Nop" else bool(s.get("guard", True))) for s in inp["stmts"]}
+    kinds = {s["id"]: s.get("kind", "Assign") for s in inp["stmts"]}
+    dyn = inp.get("dyn") or {}
+    raise_at = inp.get("raise_at") if step == 0 else None
+    plan, executed, log = [], set(), []
+
+    def update(ids):
+        early = []
+
+        def add(sid):
+            if sid in executed or sid in plan or sid in early:
+                return
+            for d in deps[sid]:
+                add(d)
+            early.append(sid)
+        for i in ids:
+            add(i)
+        plan[:0] = early
+
+    update(roots)
+    while plan and len(log) < 20 * len(deps) + 20:
+        sid = plan.pop(0)
+        executed.add(sid)
+        log.append(("visit", sid))
+        if not guards[sid]:
+            continue
+        log.append(("exec", sid, METHOD[kinds[sid]]))
+        if sid == raise_at:
+            break
+        d = dyn.get(sid)
+        if d is not None and d.get("new_deps") is not None:
+            log.append(("request", sid, list(d["new_deps"]), list(plan)))
+            update(d["new_deps"])
+    return log
+
+
+def check_step(inp, log, events, cut, roots, tag, as_prefix_model=True):
     """-> list of violations (clause, detail, causes)"""
     deps = {s["id"]: list(s["deps"]) for s in inp["stmts"]}
     guards = {s["id"]: (True if s.get("kind") == "Nop" else bool(s.get("guard", True))) for s in inp["stmts"]}
@@ -246,9 +302,17 @@ def check_step(inp, log, events, cut, roots, tag):
             viol.append(("requested-first",
                          "%s: %s requested %s; still needed %s (plan then: %s) but %s ran first: visits after the request %s"
                          % (tag, r["by"], r["Q"], sorted(r["N"]), r["plan"], bad, window), set(r["causes"])))
+    if cut == "runaway":
+        viol.append(("once", "%s: the controller does not terminate: more than %d visits for %d statements (%s ...)"
+                     % (tag, len(visited), len(deps), visited[:12]), set()))
+    if cut is not None and cut.startswith("controller raised"):
+        viol.append(("crash", "%s: %s after visits %s" % (tag, cut, visited), set()))
     if cut is None:
         if set(visited) != expected:
             viol.append(("all-visited", "%s: visited %s, expected exactly %s" % (tag, visited, sorted(expected)), set()))
+    if not as_prefix_model:
+        # the run does not behave like the pre-repair controller: nothing is attributed to its known defects
+        viol = [(c, d, set()) for c, d, _ in viol]
     want_events = [dyn[s]["event"] for s in executed if s in dyn and dyn[s].get("event") is not None
                    and not (cut and s == executed[-1] and s == inp.get("raise_at"))]
     if events != want_events:
@@ -277,7 +341,8 @@ def evaluate(inp):
     for step in range(int(inp.get("steps", 1))):
         log, events, cut = run_step(inp, phase, ctrl, step, roots)
         logs.append((log, events, cut))
-        viol += check_step(inp, log, events, cut, roots, "step %d" % step)
+        viol += check_step(inp, log, events, cut, roots, "step %d" % step,
+                           as_prefix_model=(log == prefix_model_log(inp, roots, step)))
     if len(logs) > 1:
         # reset clause: the last step on the reused controller must look like a step on a fresh one
         fresh = lang.ExecutionController(code)
@@ -324,9 +389,11 @@ def fp_only(cls):
 
 # D14: at the time of a dynamic request, a requested statement that is neither visited nor planned has a
 # (transitive, unvisited) dependency that IS already planned and not yet executed; update_plan puts the requested
-# statement in front of that dependency.  Matches only if every violation of the input is of exactly this kind.
-# The second class is a different situation (the requested statement itself is already somewhere in the plan and is
-# left where it is); it is listed so that such inputs can be told apart, not because it is a recorded finding.
+# statement in front of that dependency.  Matches only if every violation of the input is of exactly this kind AND
+# the whole callback log equals what the pre-repair algorithm (snapshot d93a44f) produces on this input.
+# The second class is a different situation with the same root (the requested statement itself is already somewhere
+# in the plan and is left where it is, so other planned statements run before it); listed so that such inputs can be
+# told apart.  Both were repaired in /repo by commit 6c538a5; on that tree neither occurs.
 FINGERPRINTS = {D14: fp_only(D14), REQ_PLANNED: fp_only(REQ_PLANNED)}
 
 
